@@ -596,6 +596,53 @@ def run_c20(case):
     return {"lines": lines, "impl": out, "meta": meta}
 
 
+# ------------------------------------------------------------------ C08: training reaches the parameters every object owns NOW
+
+def run_c08_train(case):
+    """two structurally equal, separate propositions with TRAINABLE bounds (activation bounds_learning) under separate
+    conjunctions; train, give one of them data again (which re-creates its Parameter object), train again: every trainable
+    parameter a registered object owns at that moment and that receives a non-zero gradient must be moved by the optimiser
+    (implementation only). case: {'first': (lo,hi), 'again': (lo,hi), 'which': 0|1, 'lr': Fr}"""
+    import impl
+    import torch
+    L = impl.lnn()
+    impl.take_log()
+    ps = [L.Proposition("P", activation={"bounds_learning": True}) for _ in range(2)]
+    qq = L.Proposition("Q")
+    ands = [L.And(p, qq) for p in ps]
+    m = L.Model()
+    m.add_knowledge(*ands)
+    lo, hi = (float(x) for x in case["first"])
+    m.add_data({ps[0]: (lo, hi), ps[1]: (lo, hi), qq: L.Fact.TRUE})
+    m.add_labels({a: L.Fact.TRUE for a in ands})
+    kw = dict(losses=[L.Loss.SUPERVISED], epochs=2, learning_rate=float(case["lr"]), max_steps=8)
+    meta = {"errors": [], "bad": None, "registered_once": len(m.nodes) == len(set(map(id, m.nodes.values())))}
+    try:
+        m.train(**kw)
+        lo2, hi2 = (float(x) for x in case["again"])
+        m.add_data({ps[case["which"]]: (lo2, hi2)})
+        owned = {(n, name): prm for n, node in m.nodes.items() for name, prm in node.named_parameters() if prm.requires_grad}
+        before = {k: prm.detach().clone() for k, prm in owned.items()}
+        m.train(**kw)
+    except Exception as e:
+        meta["errors"].append(f"{type(e).__name__}: {str(e)[:200]}")
+        return {"lines": [], "impl": [], "meta": meta}
+    for (n, name), prm in owned.items():
+        now = dict(m.nodes[n].named_parameters()).get(name)
+        if now is not prm:
+            meta["bad"] = {"problem": "training replaced a parameter object of a registered formula", "formula_number": n, "parameter": name}
+            break
+        g = prm.grad
+        if g is not None and float(g.abs().sum()) > 0 and torch.equal(prm.detach(), before[(n, name)]):
+            meta["bad"] = {"problem": "a registered formula's trainable parameter received a gradient but training did not move it: the "
+                                      "optimiser does not hold the parameters the model's objects own now",
+                           "formula_number": n, "formula": str(m.nodes[n]), "parameter": name,
+                           "gradient": [float(x) for x in g.reshape(-1).tolist()],
+                           "value": [float(x) for x in prm.detach().reshape(-1).tolist()]}
+            break
+    return {"lines": [], "impl": [], "meta": meta}
+
+
 # ------------------------------------------------------------------ C08: every sub-formula object is a full member
 
 def run_c08(case):
